@@ -6,7 +6,9 @@
    a_i = Z (x)..(x) Z (x) Sp (x) I (x)..(x) I.  [entry fs r c] is the matrix element <r| f1 (x) f2 (x) .. |c>. *)
 From Coq Require Import ZArith List Bool String Arith.
 Import ListNotations.
-From RV Require Import Gen.SimplifyOp Gen.JwSwapRule Model.Jw Proofs.JwProofs.
+From Coq Require Import Permutation.
+From RV Require Import Gen.SimplifyOp Gen.JwSwapRule Gen.QcLoops Model.Jw Proofs.JwProofs.
+From RV Require Base.CRing Model.SymMpo Proofs.SymMpoProofs.
 Local Open Scope Z_scope.
 
 (* ---- 1. the Jordan-Wigner strings are fermions: for ANY number of sites n and all i, j < n, all matrix elements *)
@@ -99,6 +101,64 @@ Theorem C17_qc_covered_spec : qc_covered = true <-> forall s, In s qc_alphabet -
 Proof. exact qc_covered_spec. Qed.
 Print Assumptions C17_qc_covered_spec.
 
+(* ---- 6. hermiticity: for symmetric integrals (h_pq = h_qp; (ab|cd) = (ba|cd) = (ab|dc) = (cd|ab), which is what the
+        antisymmetrisation of int_to_h relies on) the adjoint index class tadj t -- (p,q) -> (q,p), (p,q,r,s) -> (r,s,p,q),
+        the normal-ordered form of the reversed daggered product -- carries the same coefficient (so it is in the term
+        list iff t is), and its generated operator is the transpose of the operator of t: all norb, all matrix elements *)
+Theorem C17_qc_hermitian_coeff : forall h eri, h_symmetric h -> eri_symmetric eri ->
+  forall t, tcoef h eri (tadj t) = tcoef h eri t /\ tadj (tadj t) = t.
+Proof. exact qc_hermitian_coeff. Qed.
+Print Assumptions C17_qc_hermitian_coeff.
+
+Theorem C17_qc_hermitian : forall n h eri, h_symmetric h -> eri_symmetric eri ->
+  forall t r c, (match t with T1 p q => p < n /\ q < n | T2 p q r' s => p < n /\ q < n /\ r' < n /\ s < n end)%nat ->
+  List.length r = n -> List.length c = n ->
+  tcoef h eri (tadj t) * pt_entry (term_pt n (t_ops (tadj t))) r c = tcoef h eri t * pt_entry (term_pt n (t_ops t)) c r.
+Proof. exact qc_hermitian_proof. Qed.
+Print Assumptions C17_qc_hermitian.
+
+(* the adjoint of any product of ladder operators is the reversed product of the daggered ones *)
+Theorem C17_ops_product_adj : forall n ops r c,
+  pt_entry (ops_product n (ops_adj ops)) r c = pt_entry (ops_product n ops) c r.
+Proof. exact ops_product_adj. Qed.
+Print Assumptions C17_ops_product_adj.
+
+(* ---- 7. stacked = flat: for EVERY support pattern of the integral arrays and every enumeration order of the set of
+        visited first indices (generated from the loop skeleton of qc_model: domain, `continue` guards, inner guards),
+        the concatenated stacked sub-lists are a permutation of the flat term list *)
+Theorem C17_stacked_is_flat : forall norbs S1 S2 ps,
+  (forall x, In x S1 -> (fst x < norbs)%nat) -> (forall x, In x S2 -> (qfirst x < norbs)%nat) ->
+  Permutation ps (stacked_visits norbs S1 S2) ->
+  Permutation (stacked_terms_over ps S1 S2) (flat_terms S1 S2).
+Proof. exact stacked_is_flat_proof. Qed.
+Print Assumptions C17_stacked_is_flat.
+
+(* ---- 8. sequences of exchanges, operator side.  (a) swap_jw = False, on top of C01's swap_mpo_sound: after ANY history
+        of successful try_swap_site calls (any ring, any witnesses accepted by C01's checks) the coefficient of every
+        string of primary operators is the original coefficient of the string with the exchanges undone *)
+Theorem C17_ofs_operator_invariant_plain :
+  forall (R : CRing.CRing) (iszero : CRing.car R -> bool), (forall x, iszero x = true -> x = CRing.r0 R) ->
+  forall bs ks bs', swap_history R iszero bs ks bs' ->
+  forall s, List.length s = List.length bs -> SymMpo.coeff R bs' s = SymMpo.coeff R bs (perm_str ks s).
+Proof. exact ofs_operator_invariant_plain_proof. Qed.
+Print Assumptions C17_ofs_operator_invariant_plain.
+
+(* (b) swap_jw = True -- PARTIAL.  Proved: the per-pair statement C17_jw_swap_rule_conj(_all_words): the rule maps the
+   two-site product o_first (x) o_second to F (o_first (x) o_second) F^T, and C17_state_rule_is_F.  Not proved:
+     ofs_operator_invariant : after any history of exchanges with the JW rule the dense operator equals
+        G (P H P^T) G^T   with P the accumulated site permutation and G the accumulated product of F's.
+   Interface lemmas that are missing (C01 models swap_site for swap_jw = False only):
+     (i)  swap_site_jw R iszero nprim phi b2 b3 ws  :=  swap_site with the table
+              map (fun '([a1; x; y; lab; z], f) => let '(x', y', c) := phi (x, y) in ([a1; x'; y'; lab; z], c * f)) (dedup (swap_table nprim b2 b3))
+          (table_and_factor_swapped_jw; phi interns the words produced by jw_rule as new primary indices) and
+          swap_jw_sound : ... -> forall D1 i l x' y', i < length b3 ->
+              dnext (dnext D1 nb2) nb3 i (x' :: y' :: l) = sum over (x, y) with phi (x, y) = (x', y', c) of c * dnext (dnext D1 b2) b3 i (x :: y :: l)
+          (same proof as swap_sound: sweep_sound on the mapped table + a variant of swap_table_den);
+     (ii) the dense bridge  dense n prim c r col := sum over strings s in (seq 0 nprim)^n of c s * entry (map (den_word o prim) s) r col
+          with  dense (c o swap_str k) = P_k (dense c) P_k^T  (re-indexing of the string sum) and, from (i) and
+          C17_jw_swap_rule_conj_all_words, dense c_jw = F_k (dense c) F_k^T.
+   Until then sequences with the JW rule are covered by the dense oracle (every step of every sequence). *)
+
 (* ---- non-vacuity *)
 Example C17_car_instance : acomm (a_op 3 1) (a_dag 3 1) [true; false; true] [true; false; true] = 1
   /\ acomm (a_op 3 0) (a_dag 3 2) [true; false; false] [false; false; true] = 0
@@ -123,3 +183,33 @@ Example C17_simplify_instance : simp_new_symbol ["-"; "Z"; "Z"; "Z"]%string = ["
   /\ simp_sign_minus ["-"; "Z"; "Z"; "Z"]%string = true
   /\ Forall (fun s => In s qc_alphabet) ["-"; "Z"; "Z"; "Z"]%string.
 Proof. split; [reflexivity|]. split; [reflexivity|]. repeat (constructor; [cbn; tauto|]); constructor. Qed.
+
+Example C17_hermitian_instance :
+  let h : h_t := fun a b => Z.of_nat (a + b) in
+  let eri : eri_t := fun a b c d => Z.of_nat ((a + b) * (c + d) + 1) in
+  h_symmetric h /\ eri_symmetric eri /\ tcoef h eri (T2 0 3 1 2) = 2 /\ tcoef h eri (T1 1 3) = 1 /\ tadj (T2 0 3 1 2) = T2 1 2 0 3.
+Proof.
+  cbn zeta. split; [intros a b; f_equal; ring|].
+  split; [repeat split; intros a b c d; f_equal; ring|].
+  vm_compute. repeat split.
+Qed.
+
+Example C17_stacked_instance :
+  let S1 := [(0, 0); (2, 0); (0, 2)]%nat in let S2 := [(1, 3, 1, 3); (0, 1, 0, 1)]%nat in
+  stacked_visits 4 S1 S2 = [2; 1; 0]%nat /\
+  stacked_terms_over [1; 0; 2]%nat S1 S2 = [T2 1 3 1 3; T1 0 0; T1 0 2; T2 0 1 0 1; T1 2 0].
+Proof. vm_compute. split; reflexivity. Qed.
+
+(* a one-step history exists (the data of C01_ex_swap) *)
+Example C17_history_instance : exists nb2 nb3,
+  swap_history CRing.ZRing SymMpo.z_zero
+    ([] ++ [[([0; 2], 1%Z)]; [([1; 2], 3%Z); ([2; 0], 4%Z)]] :: [[([0; 0], 2%Z); ([1; 1], 1%Z)]] :: [])%nat [0%nat]
+    ([] ++ nb2 :: nb3 :: []).
+Proof.
+  eexists. eexists.
+  eapply (sh_step CRing.ZRing SymMpo.z_zero 3 [] [] _ _ _ _
+            [SymMpo.WG CRing.ZRing [] [[0; 3; 0]; [2; 3; 0]]; SymMpo.WG CRing.ZRing [] [[3; 0]]; SymMpo.WG CRing.ZRing [] [[0]]]%nat [] _).
+  - vm_compute. reflexivity.
+  - apply SymMpoProofs.sweep_okb_sound; first [ (intros x Hx; apply Z.eqb_eq in Hx; exact Hx) | (vm_compute; reflexivity) ].
+  - apply sh_nil.
+Qed.
